@@ -1,8 +1,9 @@
 import Driver.OpsCore
 import Driver.OpsTEI
+import Driver.OpsFPA
 namespace Driver
 
-def handlers : List Handler := [handleCore, handleTEI]
+def handlers : List Handler := [handleCore, handleTEI, handleFPA]
 
 def step (st : St) (line : String) : St × String :=
   match (line.trimAscii.toString.splitOn " ").filter (· ≠ "") with
